@@ -279,7 +279,7 @@ def _judge_points_pass(cfg, batches, V, res):
         V.add("data_never_presented", "one pass presented %d of %d data; never presented: %s; at most %d (tail of "
               "drop_last) may be missing (%s, %d batches of sizes %s)"
               % (n - len(missing), n, missing[:12], allowed, cfg, len(batches), [b[0].shape[0] for b in batches][:12]),
-              missing=len(missing), **mech)
+              **mech)
     _cnt(res, "points_batches", len(batches))
     _cnt(res, "points_rows_presented", sum(seen.values()))
     _cnt(res, "points_dropped_tail_rows", len(missing) if not bad else 0)
@@ -496,7 +496,7 @@ def _judge_don_pass(cfg, batches, V, res):
         V.add("pairs_never_presented", "one pass (%d batches) presented %d of %d (function, location) pairs; never "
               "presented e.g. %s; %d branch x %d trunk windows, gcd %d (%s)"
               % (len(batches), nb * nt - len(missing), nb * nt, missing[:6].tolist(), lb, lt, math.gcd(lb, lt), cfg),
-              missing=int(len(missing)), **extra)
+              **extra)
     else:
         _cnt(res, "deeponet_passes_fully_covered")
     return id_batches
@@ -794,3 +794,10 @@ def extra_coverage(results):
     return {"exhaustive_subspace": {"configurations_enumerated": int(n), "sizes_up_to": top,
                                     "what": "every (size, batch size in {-1,1..size,size+1,size+3}, shuffle flags, "
                                             "drop_last, trunk layout) combination with all sizes <= sizes_up_to"}}
+
+
+def warmup():
+    """imports done before the per-case watchdog is armed"""
+    from torchphysics.utils import PointsDataLoader, DeepONetDataLoader  # noqa: F401
+    from torchphysics.models import DeepONet, BranchNet, TrunkNet  # noqa: F401
+    from torchphysics.problem.conditions import DataCondition, DeepONetDataCondition  # noqa: F401
